@@ -274,8 +274,9 @@ def check(pid, tier):
         "wall_s": round(time.time() - t0, 2),
         "violations": len(seen),
     }
-    os.makedirs(os.path.join(HOME, "evidence"), exist_ok=True)
-    with open(os.path.join(HOME, "evidence", "%s.json" % pid), "w") as f:
+    evdir = os.environ.get("VERIF_EVIDENCE_DIR") or os.path.join(HOME, "evidence")
+    os.makedirs(evdir, exist_ok=True)
+    with open(os.path.join(evdir, "%s.json" % pid), "w") as f:
         json.dump(ev, f, indent=1, sort_keys=True, default=str)
         f.write("\n")
     log("%s %s: %d evaluations, %d distinct non-trivial, %d inconclusive, %d new violation(s), %.1fs" % (
